@@ -774,7 +774,7 @@ W["assert_k_of_n"] = dict(
           # "all unit clauses hold", enumerated from the last unit to the first (a reindexing of a finite conjunction: lemma.reindex, proved each run)
           "self.prepend": dict(params={"units": "list[int]"}, ghost_after=["U = U and forall(j, 0, len(arg_units), L(arg_units[len(arg_units) - 1 - j]))"])},
     requires=["k >= 0", "len(in_list) >= 1", "forall(j, 0, len(in_list), in_list[j] > 0)"],
-    post_hints=[
+    post_hints_at={-1: [
         "len(left_padded) == len(sum_bits) and len(assertion) == len(sum_bits)",
         "forall(j, 0, len(in_binary), in_binary[j] == 1 or in_binary[j] == -1)",
         "k == " + _KSUM,
@@ -798,13 +798,17 @@ W["assert_k_of_n"] = dict(
         "implies(" + _VSUM + " == " + _PSUM + ", forall(j, 0, len(sum_bits), iff(L(sum_bits[len(sum_bits) - 1 - j]), left_padded[len(sum_bits) - 1 - j] == 1)))",
         "iff(U, " + _VSUM + " == " + _PSUM + ")",
         "implies(len(in_binary) >= 2, k >= pow2(len(in_binary) - 1))",
+        # the count's width is at least the threshold's: otherwise k <= n <= 2^(width-1) and k >= 2^(len(in_binary)-1) >= 2 * 2^(width-1)
+        "k <= len(in_list)",
+        "implies(len(sum_bits) < len(in_binary), pow2(len(sum_bits) - 1) >= len(in_list))",
+        "implies(len(sum_bits) < len(in_binary), 2 * pow2(len(sum_bits) - 1) <= pow2(len(in_binary) - 1))",
         "len(sum_bits) >= len(in_binary)",
         # the padded threshold has the threshold's value: equal summands below len(in_binary), zero summands above
         "sum(j, 0, len(in_binary), ite(left_padded[len(sum_bits) - 1 - j] == 1, pow2(j), 0)) == k",
         "forall(j, len(in_binary), len(sum_bits), ite(left_padded[len(sum_bits) - 1 - j] == 1, pow2(j), 0) == 0)",
         _PSUM + " == sum(j, 0, len(in_binary), ite(left_padded[len(sum_bits) - 1 - j] == 1, pow2(j), 0))",
         _PSUM + " == k",
-    ],
+    ]},
     ensures=[f"iff(U, {_CNT} == k)"],
     assumptions=["pop_count's contract for symbolic n (result width, exact count below the saturation point, top bit set at or above it, capacity of an unsaturated "
                  "result) is assumed; it is checked per shape n <= 16 (thorough 40) in C12 and on large n by C10.large",
@@ -870,8 +874,40 @@ W["inequality_assertion"] = dict(
         f"iff(U, BE(kbs) < BE(nbs))",
     ]},
     ensures=[f"implies(assert_less_than, iff(U, {_CNT} < k))", f"implies(not assert_less_than, iff(U, {_CNT} > k))"],
-    assumptions=["pop_count (symbolic n), _make_same_length (padding keeps both values, equal lengths, a false leading bit on both sides when it pads) and "
-                 "_convert_to_negative_twos_complement (value 2^L - x, 0 for 0) are used by contract: assumed here for all widths, checked per shape in the S tier "
-                 "(C10/C12) and on large n by C10.large; ripple_carry's sum equation is the proved contract of C12.wp.ripple_carry",
+    assumptions=["pop_count (symbolic n) and _convert_to_negative_twos_complement (value 2^L - x, 0 for 0) are used by contract: assumed here for all widths, checked "
+                 "per shape in the S tier (C10/C12) and on large n by C10.large; _make_same_length's contract is proved (make_same_length), ripple_carry's sum "
+                 "equation is the proved contract of C12.wp.ripple_carry (restricted to its semantic part)",
                  "the unit clauses that fix the fresh threshold variables to the bits of k are definitions (assumed), the final unit clause is collected in the ghost U"],
+)
+
+# ------------------------------------------------------------------ core/cnf.py: _make_same_length (C10; the contract assumed by inequality_assertion, proved here)
+_ZERO_OUT = dict(params={"in_list": "list[int]"}, ensures=["forall(j, 0, len(in_list), not L(in_list[j]))"])      # unit clauses ~v on fresh variables: definitions
+_MSL_ENS = ["len(xs) == len(ys)", "BE(xs) == BE(old(xs))", "BE(ys) == BE(old(ys))", _NZ.format(x="xs"), _NZ.format(x="ys"),
+            "implies(len(old(xs)) == len(old(ys)), len(xs) == len(old(xs)))",
+            "implies(len(old(xs)) != len(old(ys)), len(xs) == max(len(old(xs)), len(old(ys))) + 1 and not L(xs[0]) and not L(ys[0]))"]
+_MSL["ensures"] = _MSL_ENS          # the callee contract used above, with old(...) for the values at the call
+_XS_LOW = "sum(j, 0, len(old(xs)), wbit(xs[len(xs) - 1 - j], j))"
+_YS_LOW = "sum(j, 0, len(old(ys)), wbit(ys[len(ys) - 1 - j], j))"
+W["make_same_length"] = dict(
+    id="make_same_length", target="sweetpea._internal.core.cnf:CNF._make_same_length", prop=["C10"],
+    params={"xs": "list[int]", "ys": "list[int]"},
+    spec_funcs={"val": (["int"], "bool")}, macros=_BE_MACROS, lemmas=["sum_ranges"],
+    uses={"self.get_n_fresh": _GET_N_FRESH, "self.zero_out": _ZERO_OUT,
+          "self._make_same_length": dict(params={"xs": "list[int]", "ys": "list[int]"}, modifies=["xs", "ys"],
+                                         requires=[_NZ.format(x="xs"), _NZ.format(x="ys"), "len(xs) < len(ys)"],      # the recursive call swaps the arguments: strictly shorter first
+                                         ensures=_MSL_ENS)},
+    requires=[_NZ.format(x="xs"), _NZ.format(x="ys")],
+    post_hints_at={-1: [     # the padding branch (falls off the end): the old bits keep their positions counted from the least significant end, the new ones are false
+        "implies(len(old(xs)) < len(old(ys)), " + "len(xs) == len(ys) and len(xs) == len(old(ys)) + 1" + ")",
+        "implies(len(old(xs)) < len(old(ys)), " + "forall(j, 0, len(old(xs)), xs[len(xs) - 1 - j] == old(xs)[len(old(xs)) - 1 - j])" + ")",
+        "implies(len(old(xs)) < len(old(ys)), " + "forall(j, len(old(xs)), len(xs), not L(xs[len(xs) - 1 - j]))" + ")",
+        "implies(len(old(xs)) < len(old(ys)), " + _XS_LOW + " == BE(old(xs))" + ")",
+        "implies(len(old(xs)) < len(old(ys)), " + "forall(j, len(old(xs)), len(xs), wbit(xs[len(xs) - 1 - j], j) == 0)" + ")",
+        "implies(len(old(xs)) < len(old(ys)), " + "BE(xs) == " + _XS_LOW + ")",
+        "implies(len(old(xs)) < len(old(ys)), " + "forall(j, 0, len(old(ys)), ys[len(ys) - 1 - j] == old(ys)[len(old(ys)) - 1 - j])" + ")",
+        "implies(len(old(xs)) < len(old(ys)), " + _YS_LOW + " == BE(old(ys))" + ")",
+        "implies(len(old(xs)) < len(old(ys)), " + "forall(j, len(old(ys)), len(ys), wbit(ys[len(ys) - 1 - j], j) == 0)" + ")",
+        "implies(len(old(xs)) < len(old(ys)), " + "BE(ys) == " + _YS_LOW + ")",
+    ]},
+    ensures=_MSL_ENS,
 )
